@@ -226,6 +226,32 @@ def run(ctx):
     from rules import c20, c06
     c20.constructor_rules(ctx, "R-C03.G.aggparam")
     c06.run_keys(ctx)
+    # the measurement's bit order: IdpfInput::from_bytes is the MSB-first bit view of the bytes, copied whole into the index (the
+    # client's input, the collector's candidate prefixes and the decoded aggregation parameter all go through it)
+    rule = "R-C03.I"
+    try:
+        f = ctx.fn(rule, name="from_bytes", id_re=r"^idpf::IdpfInput::from_bytes$")
+        g = ctx.guards(f)
+        key = "%s:%s" % (rule, f.id)
+        views = [(bi, t) for bi, t in f.body.calls() if t.callee.name == "view_bits"]
+        msb = [t for bi, t in views if "Msb0" in ((t.callee.bestfull or "") + (t.callee.path or "")) and t.args and Arg(1)(g.eb.operand(t.args[0]))]
+        copies = [g.eb.call_expr(t) for bi, t in f.body.calls() if t.callee.name in ("clone_from_bitslice", "copy_from_bitslice", "extend_from_bitslice", "to_bitvec", "from_bitslice")]
+        tricks = [t.callee.name for bi, t in f.body.calls() if t.callee.name in ("reverse_bits", "from_be_bytes", "from_le_bytes", "from_ne_bytes", "swap_bytes", "rotate_left", "rotate_right",
+                                                                               "reverse", "chunks", "chunks_exact", "truncate", "from_vec", "split_at")]
+        whole = len(copies) == 1 and Mentions(Call("view_bits", Arg(1)))(copies[0]) and not [x for x in walk(copies[0]) if isinstance(x, tuple) and x[0] == "call" and len(x) > 4 and
+                                                                                       x[4] in ("std::ops::Index::index", "std::ops::IndexMut::index_mut")]
+        rds = [rd for rd in g.retdefs if rd.expr is not None]
+        if len(views) == 1 and len(msb) == 1 and whole and not tricks and len(rds) == 1 and Agg("IdpfInput", Any())(rds[0].expr):
+            ctx.ok(rule, key, "index = bytes.view_bits::<Msb0>() copied whole (bit i of the input is bit 7 - i%8 of byte i/8)", loc=f.loc)
+        else:
+            ctx.bad(rule, key, "IdpfInput::from_bytes is not the whole MSB-first bit view of its argument (views %d, Msb0 %d, copies %d, other bit manipulation %s)" % (
+                len(views), len(msb), len(copies), tricks), loc=f.loc)
+    except Skip:
+        pass
+    ctx.floor(rule, 1)
+    # the ping-pong driver decodes and routes the Poplar1 messages whose shape changes between rounds (shared with C12)
+    from rules import c12
+    c12.run(ctx)
     # "used in any admissible sequence on the same reports": the admissibility predicate must accept exactly the admissible
     # histories (shared with C20)
     c20.validity_rules(ctx, "R-C03.V")
